@@ -5,15 +5,28 @@ import json, os, subprocess
 ROOT = os.path.dirname(os.path.dirname(os.path.abspath(__file__)))
 
 HOOK_COMMITS = ["6ee76f6"]
+FIX_COMMITS = ["6e0caa7", "2840cea", "9555ff6", "6248959", "f561aed", "90dd435", "4d73456", "dda770d"]
 
 # id -> (technique, level text, level note, design ref)
 CHECKS = {
+ "C02": ("exhaustive enumeration of engineered (msg, signature, public key) triples with prescribed squared norm (bound-1/bound/bound+1/far/wrap sizes), centred-range edge entries and malformed encodings, each through the real verify and a schoolbook Algorithm 16 (plus PQClean)",
+         "Bounded exhaustive over a product alphabet of triples aimed at the glue of verify (centred lift, bound constant, comparison operator, accumulator width, decoder verdict), each compared with the reference Algorithm 16; components (hash, decoder, NTT pipeline, Z_q gates) are decided for all inputs by C14/C07/C11/C12.",
+         "Compositional: relies on C07, C11, C12, C14 for the components. Reference verify is schoolbook; PQClean's verifier is a third source on the common domain.", "3/C02"),
  "C03": ("exhaustive input enumeration of the real decoders/verify (lengths x headers x patterns, single fields, end-of-buffer windows of the streaming decoder) under catch_unwind in an overflow-checked build",
          "Bounded exhaustive exploration of the real code: every length x header x 6 body patterns for all six decoders, every value of selected key fields, and every (alignment, distance-to-end, last/non-last, tail) configuration of the signature decoder at production size, each execution required not to unwind. Complete for the length/header guards and for the decoder's buffer-end automaton; bounded for bodies.",
          "Assumes the decoder's behaviour on a coefficient depends only on cursor alignment, bits left, last/non-last and the local window (argued from the code). Build: opt-level 3 with overflow-checks and debug-assertions on.", "3/C03"),
+ "C05": ("exhaustive per-field codec enumeration (all representable values of every field position class) plus enumeration of a seed window x messages x signer environments with round-trip and sign-after-decode oracles",
+         "Codec bijectivity is complete per field (data-independent loops); key generation is covered on an enumerated seed window that contains the seeds on which keys were found to leave the encodable range; every key's representability is read through the hook.",
+         "Seeds outside the window are not covered. Sign-after-decode uses fixed ChaCha streams and the production RNG behind a draw budget.", "3/C05"),
+ "C06": ("exhaustive enumeration of lengths x header bytes x body patterns for all six decoders and of every value of selected fields / edge values at every field, with the re-encode-equality oracle and a reference framing",
+         "Complete per field: acceptance sets are products of independent fields, every field's acceptance set is enumerated completely at 4 positions and at its edges everywhere; all 256 headers x all lengths (thorough) for every decoder.",
+         "Reference framing from the specification (validated against PQClean decoders at setup). Secret keys whose f is not invertible are outside what the property lists and only checked for canonical re-encoding.", "3/C06"),
  "C07": ("exhaustive enumeration of all byte strings <= 3 bytes (n <= 3) plus end-of-buffer windows and run-length tokens at production size, each compared with a bit-level reference codec",
          "Small-scope complete model check of compress/decompress against bit-level Algorithms 17/18 (50.5M strings, every one compared), an encoder alphabet with every budget, and complete enumeration of buffer-end windows and unary-run boundaries at n = 512/1024.",
          "Reference codec is our own transcription of Algorithms 17/18 (validated against PQClean comp_encode/comp_decode at setup). Transfer from small scope to production size rests on the branch structure of the codec (cursor mod 8, bits left, last/non-last, run length).", "3/C07"),
+ "C09": ("exhaustive exploration of all per-iteration answer sequences (depth 2, thorough 3) of the real sampler under a role-aware byte environment against the specification's SamplerZ; threshold extraction by binary search on the real decision functions and exact assembly of the output law (probabilistic model checking)",
+         "Building blocks on generating sets (all RCDT thresholds from both sides, all u with <= 2 non-zero bytes, ApproxExp grid bit-exact, BerExp byte patterns at every first-difference position); every answer sequence up to the depth bound replayed against the reference; the exact output law from extracted thresholds within 2^-40 total variation of the ideal Gaussian on a (r, sigma') grid.",
+         "Uniformity of the random bytes is the premise. (mu, sigma') are gridded. FP evaluation order of x follows the reference C code; comparison bytes keep a 2^16 margin.", "3/C09"),
  "C11": ("complete enumeration of tables and of all basis vectors / basis pairs for every n <= 1024 (generating set of a linear / bilinear circuit)",
          "Complete: 2059 table equalities; ntt(X^i)[k] = omega_k^i for all i,k and every n; inverse round trip; all basis pairs (thorough: all 1.4M pairs) give +-X^(i+j). Linearity of the data-independent butterfly circuit extends this to all q^n inputs.",
          "Trusts: exact Z_q gates (C12, exhaustive); absence of data-dependent branches in the butterflies (read from the code; additionally probed on two-term and dense vectors against the schoolbook product).", "3/C11"),
@@ -23,6 +36,9 @@ CHECKS = {
  "C14": ("exhaustive enumeration of all strings of length <= 2 (thorough) and block-boundary lengths x 256 fill bytes against an independent Keccak + Algorithm 3, with forced hits on the rejection threshold",
          "Bounded exhaustive: every short string and every absorb-boundary length compared coefficient by coefficient with our own SHAKE-256 + Algorithm 3; the evidence counts how often chunks equal to 61444/61445/65535 and a rejection right before the last coefficient occurred (must be > 0).",
          "Own Keccak validated against PQClean fips202.c at setup. Longer messages covered only through SHAKE's block structure.", "3/C14"),
+ "C17": ("exhaustive enumeration of a multiplier alphabet k applied to real (ntru_gen) and structured (f,g,F0,G0) for every n in {2..1024}, both reductions run on each input and compared, exact integer oracles",
+         "Bounded exhaustive: for each base quadruple every k in the alphabet; oracles: i32 and big-integer versions identical, f*G'-g*F' preserved exactly (i128), idempotence, exact multiple-of-(f,g) certificate; degenerate inputs (0,0), (1,0), already reduced.",
+         "Inputs outside the alphabet are not covered; coefficients are kept below 2^24 as the property states.", "3/C17"),
 }
 
 PENDING = {
